@@ -20,6 +20,16 @@ CLAIMED = {
             "positive and not longer than the time to the earliest due item; -1 iff nothing pending. Tie: handler-style scripts against the real queue code with a virtual clock; "
             "the C01 monitor judges the implementation's own trace.",
             NOTE + "Queue level: 'stored' = handed to the store by the timeout pass; clock monotone, whole seconds.", "history invariant lifted through the FIFO simulation; differential correspondence + trace monitor"),
+    "C06": ("Theorems for every path, common-parent offset and rule sets: sieve() computes the declarative whole-component matching (deepest matching entry per set, "
+            "last hidden component); the decision loop is 'the deepest of {hidden, cluded, included, excluded, history} decides, ties in that order'; project sets never change the decision. "
+            "Tie: the real sieve() on exhaustive small paths and rule placements, and the real handle_close_write with Lua configurations for decisions.",
+            NOTE + "Rule sets modelled as lists of strings (membership = is_within, exact by C15). Ties between different sets at equal depth are not ranked by the property: the monitor accepts either.",
+            "loop invariant to a declarative spec + 'first maximal candidate' lemma; differential correspondence + policy monitor"),
+    "C09": ("Theorems: extension = everything from the first dot of the file name not counting a leading dot (decomposition lemma for all names); store layout root/rel/version[-k]ext for all k; "
+            "and, for EVERY oracle (any faults, short transfers, crash), every creating/removing/linking/write-opening call of load_handler, handle_open_exec, handle_close_write (incl. reload) "
+            "and handle_timeout names a path inside a configured location (mkdir/rmdir: or an ancestor of one). Tie: exhaustive names to length 6, store paths, and handler histories whose real call logs are checked.",
+            NOTE + "Confinement is string-level (prefix) and assumes canonical queue entries (no '..'); effects on the watched tree are judged by the dump monitor.",
+            "program logic over the effect monad (call-log predicate for all oracles); differential correspondence + log monitor"),
 }
 ENGINE = "coq-model+correspondence"
 
